@@ -32,7 +32,7 @@ THEOREMS = [
     "Pt.lower_reshape_total",
     "Pt.pad_sound",
     "Pt.lower_einsum_correct", "Pt.lower_advindex_correct",
-    "Pt.binop_sound", "Pt.where_sound", "Pt.api_emits_own_name",
+    "Pt.binop_sound", "Pt.where_sound", "Pt.api_emits_own_name", "Pt.reduce_sound", "Pt.reduce_no_axes",
 ]
 
 
@@ -699,6 +699,35 @@ def einsum_descriptors(ctx):
     ctx.note_batch("einsum-access-descriptors", len(queries), dis, exhaustive=True)
 
 
+def gen_reduce(ctx):
+    """pt.sum/prod/amax/amin/all/any: EVERY shape of rank <= 3 (lengths 1..3, and 0 for the operations that
+    allow an empty reduction) x EVERY axis subset (as a tuple, plus the int and `None` spellings): expression
+    text (numbering of `_r<k>` and kept `_<d>`, bounds), values vs NumPy and vs the Lean spec"""
+    import pytato as pt
+    ops = [("sum", pt.sum, np.sum), ("prod", pt.prod, np.prod), ("max", pt.amax, np.amax),
+           ("min", pt.amin, np.amin), ("all", pt.all, np.all), ("any", pt.any, np.any)]
+    for r in (0, 1, 2, 3):
+        for s in itertools.product(range(0, 4), repeat=r):
+            for opn, ptf, npf in ops:
+                boolean = opn in ("all", "any")
+                a = (_data(s) % 3 == 0) if boolean else (_data(s) % 5 - 1)
+                x = _ph("x", s, np.bool_ if boolean else np.int64)
+                axsets = [tuple(c) for k in range(r + 1) for c in itertools.combinations(range(r), k)]
+                variants = [(ax, ax) for ax in axsets] + [(None, None)] + [(d, (d,)) for d in range(r)]
+                if r >= 2:
+                    variants.append(((1, 0), (0, 1)))       # order of the tuple does not matter
+                for given, norm in variants:
+                    try:
+                        node = ptf(x, axis=given)
+                    except ValueError:
+                        continue        # empty amax/amin
+                    expected = npf(a, axis=given)
+                    ax_w = "None" if given is None else "(" + " ".join(str(d) for d in (given if isinstance(given, tuple) else (given,))) + ")"
+                    yield LCase("reduce", {"op": opn, "shape": s, "axis": given}, node, {"x": a}, np.asarray(expected),
+                                f"(lower reduce {opn} {ser.shape(s)} {ax_w})",
+                                f"(spec reduce {opn} {ax_w} {ser.shape(s)} {ser.vals(a)})", structural=True)
+
+
 def gen_csr(ctx):
     import pytato as pt
     rng = random.Random(ctx.seed * 307 + 8)
@@ -732,7 +761,7 @@ def gen_csr(ctx):
 
 
 GENS = [gen_slice1d, gen_roll, gen_transpose, gen_reshape, gen_basic_nd, gen_stack_concat, gen_pad,
-        gen_advanced, gen_advanced_exh, gen_einsum, gen_einsum_exh, gen_csr]
+        gen_advanced, gen_advanced_exh, gen_einsum, gen_einsum_exh, gen_reduce, gen_csr]
 
 
 # ---------------------------------------------------------------- the API layer: operators, where
@@ -1157,7 +1186,7 @@ def run(ctx: common.Ctx):
                 chunk = []
         if chunk:
             dis += process(ctx, chunk)
-        exhaustive = name in ("slice1d", "roll", "transpose", "stack_concat", "pad") or \
+        exhaustive = name in ("slice1d", "roll", "transpose", "stack_concat", "pad", "reduce") or \
             (name == "reshape" and ctx.thorough)
         ctx.note_batch(name, n, dis, exhaustive=exhaustive, kinds=kinds)
     pad_symbolic(ctx, prop="C02")
